@@ -502,6 +502,46 @@ pub fn compare_handovers(pred: &Pred, run: &Run) -> Option<Diff> {
     None
 }
 
+/// C11: which error type receives each report first (the field-level one under `error = X`, else the
+/// container's): multisets of (digest, location, receiving error type) must agree.
+pub fn compare_receiving_type(pred: &Pred, run: &Run) -> Option<Diff> {
+    let mut want: BTreeMap<(String, Path, u8), i32> = BTreeMap::new();
+    for r in &pred.reports {
+        *want.entry((r.kind.digest(), r.loc.clone(), r.ety)).or_insert(0) += 1;
+    }
+    let mut got: BTreeMap<(String, Path, u8), i32> = BTreeMap::new();
+    for r in run.reports() {
+        *got.entry((obs_digest(&r.kind), r.loc.clone(), r.ety)).or_insert(0) += 1;
+    }
+    // only speak when the plain (digest, location) multisets agree: otherwise it is C02's business
+    let strip = |m: &BTreeMap<(String, Path, u8), i32>| {
+        let mut o: BTreeMap<(String, Path), i32> = BTreeMap::new();
+        for ((d, l, _), n) in m {
+            *o.entry((d.clone(), l.clone())).or_insert(0) += n;
+        }
+        o
+    };
+    if strip(&want) != strip(&got) {
+        return None;
+    }
+    for (k, n) in &want {
+        if got.get(k).copied().unwrap_or(0) != *n {
+            return Some(Diff {
+                rule: "report-received-by-the-wrong-error-type",
+                detail: format!(
+                    "report `{}` at {:?} must be received by {} first (field-level `error =` in scope: {}), observed otherwise",
+                    k.0,
+                    render_path(&k.1),
+                    if k.2 == 1 { "the field-level error type" } else { "the container's error type" },
+                    k.2 == 1
+                ),
+                loc: k.1.clone(),
+            });
+        }
+    }
+    None
+}
+
 pub fn compare_value(pred: &Pred, run: &Run) -> Option<Diff> {
     match (&pred.value, &run.outcome) {
         (_, Outcome::Panic(_)) => None,
